@@ -344,7 +344,9 @@ def c05(v):
         if any(c[1] < tc for c in causes):
             continue
         for c in v.children[s]:
-            if c in v.created and v.created[c][0] > pc:
+            # (a task created in the very instant of the raise and cancelled there without its body beginning is the
+            #  pending reaction of that instant: the begin clauses below speak of what matters)
+            if c in v.created and v.created[c][0] > pc and (v.created[c][1] > tc or c in v.began):
                 V.append("C05 %s started %s after its critical job %s raised" % (s, c, who))
             if c in v.began and v.began[c][1] > tc:
                 V.append("C05 %s began at t=%d, after the critical failure of %s at t=%d" % (c, v.began[c][1], who, tc))
@@ -628,6 +630,13 @@ def c10_single(v):
             pf = v.fin.get(par)
             if pf is not None and pf[2] == "rraise" and pf[3] == v.exc_of(s):
                 V.append("C10 failure of non-critical %s propagated to %s" % (s, par))
+            if pf is not None and not (pf[2] == "rret" and pf[3] is True) and pf[0] > f[0]:
+                # ... so a parent that fails has a cause of its own: a critical job of its own that raised, or its timeout
+                pb, _, pT, pkids, _ = sched_facts(v, par)
+                own = [c["name"] for c in pkids if c["crit"] and v.raised(c["name"], pf[0])]
+                if not own and not (pT is not None and pf[1] >= pb + pT) and not (pf[2] == "rraise" and str(pf[3]).startswith("orch:")):
+                    V.append("C10 %s failed (%s) with no cause of its own after its non-critical nested scheduler %s had failed"
+                             % (par, pf[2:], s))
         if failed and v.info[s]["crit"] and f[2] == "rret" and not v.info[s].get("pure"):
             # a failed nested run propagates through a critical nested scheduler: it raises, it does not return
             V.append("C10 critical nested scheduler %s failed but returned %r instead of raising" % (s, f[3]))
@@ -659,17 +668,17 @@ def c10_pair(vn, vf):
         if vn.is_sched(j):
             continue
         if j not in vf.began:
-            if "hang" not in vf.res and b[1] < ta:
+            if "hang" not in vf.res and b[1] != ta:
                 V.append("C10 %s runs in the nested tree but not in the flattened graph" % j)
             continue
         if vf.began[j][1] != b[1]:
             V.append("C10 %s begins at t=%d nested, t=%d flattened" % (j, b[1], vf.began[j][1]))
         sa, sb = vn.stop.get(j), vf.stop.get(j)
         if (sa is None) != (sb is None) or (sa and (sa[1], sa[2]) != (sb[1], sb[2])):
-            if not (sa and sb and sa[1] >= ta and sb[1] >= ta and {sa[2], sb[2]} & {"cdone"}):
+            if not (sa and sb and sa[1] == ta and sb[1] == ta and {sa[2], sb[2]} & {"cdone"}):
                 V.append("C10 %s ends %s nested, %s flattened" % (j, sa and sa[1:], sb and sb[1:]))
     for j, b in vf.began.items():
-        if j not in vn.began and not vf.is_sched(j) and b[1] < ta:
+        if j not in vn.began and not vf.is_sched(j) and b[1] != ta:
             V.append("C10 %s runs in the flattened graph but not in the nested tree" % j)
     return V
 
@@ -773,14 +782,26 @@ def c13(v):
             sib = [x for x in live if v.info[x]["parent"] == par]
             if sib:
                 V.append("C13 %s received co_shutdown() at t=%d while %s of the same scheduler is still running" % (who, e[0], sib))
+    # ... and at its scheduler's END: once a job of s has received co_shutdown(), no job of s begins any more
+    shut = {}
+    for p, e in enumerate(v.log):
+        k, who = e[2], e[3]
+        if k == "sdb" and v.info.get(who, {}).get("parent") is not None:
+            shut.setdefault(v.info[who]["parent"], (who, e[0]))
+        if k in BEG and who in v.info and v.info[who]["parent"] in shut:
+            first, t0 = shut[v.info[who]["parent"]]
+            V.append("C13 %s begins at t=%d after %s, a job of the same scheduler, received co_shutdown() at t=%d"
+                     % (who, e[0], first, t0))
     # bounded phase, stragglers cancelled then, truthful return value
     open_calls = {}
     for p, e in enumerate(v.log):
         k, who = e[2], e[3]
         if k == "sdcall":
-            open_calls[who] = (p, e[0])
-        if k in ("sdret", "sdexc") and who in open_calls:
-            p0, t0 = open_calls.pop(who)
+            # (keyed by caller context: a relayed call that returns at once - `_did_shutdown` - must not hide the
+            # scheduler's own call that is still open)
+            open_calls[(who, e[4] if len(e) > 4 else None)] = (p, e[0])
+        if k in ("sdret", "sdexc") and (who, e[5] if len(e) > 5 else None) in open_calls:
+            p0, t0 = open_calls.pop((who, e[5] if len(e) > 5 else None))
             sdT = v.info[who]["sdT"]
             if sdT is not None and e[0] - t0 > sdT:
                 # waiting for cancelled stragglers to acknowledge is not part of the bounded wait
